@@ -587,12 +587,13 @@ def histories(draw: Any, prop: str, tier: str) -> dict:
     main = _GTask([0])
     n = d.int(5, 40 if tier == "quick" else 70)
     ops = []
-    if d.pct(3):
+    if d.pct(8 if prop in ("C02", "C04") else 3):
         # a context that holds dozens of resources / factories before anything else happens
         # ("for all context trees", not only for tables of a handful of entries)
-        for k in range(d.pick([17, 20, 33, 40])):
+        fac_share = d.pick([55, 55, 10, 90])
+        for k in range(d.pick([20, 33, 40, 40, 70])):
             t = d.int(0, 3)
-            if d.pct(55):
+            if d.pct(fac_share):
                 op = {"op": "addf", "ctx": 0, "fid": g.next_fid, "types": [t], "name": f"bulk{k}", "mode": "arg", "async": d.pct(30), "cps": 0,
                       "via": "method"}
                 g.next_fid += 1
